@@ -1742,8 +1742,30 @@ fn verify_rows(
 	if let Some(a) = src {
 		set_active(s, A, a);
 	}
+	// (by slate id; by the sent entry's log id when another entry of the account carries the slate id
+	// too — export by slate id then answers "doesn't exist": listed finding C11-self-send-export-by-slate-id,
+	// which a counterparty can also bring about by delivering a slate with this id to receive_tx)
+	let sent_ids: Vec<(u32, usize)> = s.with(A, |b, _| {
+		let pk = b.parent_key_id();
+		let n = b.tx_log_iter().filter(|t| t.tx_slate_id == Some(*id) && t.parent_key_id == pk).count();
+		b.tx_log_iter()
+			.filter(|t| t.tx_slate_id == Some(*id) && t.parent_key_id == pk && t.tx_type == TxLogEntryType::TxSent)
+			.map(|t| (t.id, n))
+			.collect()
+	});
+	let by_id = match sent_ids.first() {
+		Some((tid, n)) if *n > 1 => Some(*tid),
+		_ => None,
+	};
 	let exported = guarded(|| {
-		owner::retrieve_payment_proof(s.wallets[A].inst.clone(), s.wallets[A].mask.as_ref(), &None, true, None, Some(*id))
+		owner::retrieve_payment_proof(
+			s.wallets[A].inst.clone(),
+			s.wallets[A].mask.as_ref(),
+			&None,
+			true,
+			by_id,
+			if by_id.is_some() { None } else { Some(*id) },
+		)
 	});
 	set_active(s, A, active);
 	let proof = match exported {
@@ -2341,7 +2363,10 @@ fn run_exchange(w: &World, sc: &Script, k: u64, out: &mut Vec<Value>, shard: u64
 				let txid = s.with(A, |b, _| {
 					b.tx_log_iter().find(|t| t.tx_slate_id == Some(id) && t.tx_type == TxLogEntryType::TxSent).map(|t| t.id)
 				});
-				let r = if sc.self_send {
+				// (by log id when the slate id is ambiguous in the account — a self-send, or a planted entry:
+				// listed finding C05-ambiguous-slate-id)
+				let ambiguous = s.with(A, |b, _| b.tx_log_iter().filter(|t| t.tx_slate_id == Some(id)).count() > 1);
+				let r = if sc.self_send || ambiguous {
 					owner::cancel_tx(s.wallets[A].inst.clone(), s.wallets[A].mask.as_ref(), &None, txid, None)
 				} else {
 					owner::cancel_tx(s.wallets[A].inst.clone(), s.wallets[A].mask.as_ref(), &None, None, Some(id))
